@@ -88,12 +88,15 @@ func (g *c09gen) run(pos, length int, style int, prevDelta *uint16) int {
 	return pos + length
 }
 
-// c09format4 generates a format 4 map; limit = 1 or 2 forces a map close to
-// the 64 KiB limit (dense block of random glyph ids / isolated codes).
+// c09format4 generates a format 4 map; limit > 0 forces a map close to the
+// 64 KiB limit (1: one dense block of random glyph ids, 2: isolated codes,
+// 3: blocks of random glyph ids separated by short gaps).
 func c09format4(r *rand.Rand, limit int) (cmap.Format4, map[string]bool) {
 	g := &c09gen{r: r, m: cmap.Format4{}, cls: map[string]bool{}}
 	size := 4 + r.IntN(18)
 	switch {
+	case limit == 3:
+		size = 100
 	case limit > 0:
 		size = 1 + limit
 	case size >= 20:
@@ -121,14 +124,24 @@ func c09format4(r *rand.Rand, limit int) (cmap.Format4, map[string]bool) {
 		return g.m, g.cls
 	case size == 2: // dense block of random glyph ids around the 64 KiB limit
 		g.cls["gen:limit-dense"] = true
-		l := 32600 + r.IntN(220)
-		if r.IntN(4) == 0 {
-			l = 20000 + r.IntN(12000)
-		}
+		l := 32690 + r.IntN(50) // fits: 16 + 3*8 + 2*32739 <= 65535
 		start := r.IntN(0x10000 - l)
 		g.run(start, l, 2, &prevDelta)
 		if r.IntN(2) == 0 {
 			g.run(r.IntN(1+start), 1+r.IntN(8), 0, &prevDelta)
+		}
+		return g.m, g.cls
+	case limit == 3: // blocks of random glyph ids separated by short gaps, around the 64 KiB limit
+		g.cls["gen:limit-blocks"] = true
+		total := 31500 + r.IntN(1400)
+		pos := r.IntN(200)
+		for total > 0 && pos < 0x10000 {
+			l := 100 + r.IntN(200)
+			if l > total {
+				l = total
+			}
+			pos = g.run(pos, l, 2, &prevDelta) + 5 + r.IntN(4)
+			total -= l
 		}
 		return g.m, g.cls
 	case size == 3: // isolated codes, around the 8189 segment limit
@@ -327,15 +340,10 @@ func runC09(c *mon.Ctx) {
 	c.Stratum("fmt4", c.N(2400, 200000), func(k *mon.Case) { c09fmt4(k, 0) })
 	// maps close to the 64 KiB limit; the dense ones cost the library's
 	// encoder about 10 s each, so there are few of them
-	c.Stratum("fmt4-limit", c.N(24, 480), func(k *mon.Case) {
-		limit := 2 // isolated codes
-		if k.Index%3 == 0 {
-			limit = 1 // dense block
-		}
-		c09fmt4(k, limit)
-	})
+	c.Stratum("fmt4-limit", c.N(32, 640), func(k *mon.Case) { c09fmt4(k, 2+k.Index%2) })
+	c.Stratum("fmt4-dense", c.N(2, 48), func(k *mon.Case) { c09fmt4(k, 1) })
 	c.Require("seg:delta", "seg:array", "seg:mixed", "gen:delta-wraps", "gen:empty", "gen:single",
-		"gen:limit-dense", "gen:limit-sparse", "fmt4:code-ffff-mapped", "fmt4:above-60000-bytes", "ximage:agrees")
+		"gen:limit-dense", "gen:limit-sparse", "gen:limit-blocks", "fmt4:code-ffff-mapped", "fmt4:above-60000-bytes", "ximage:agrees")
 
 	// ------------------------------------------------------------------
 	// format 12: library encoder
